@@ -274,6 +274,16 @@ def main():
             syn.write(path2, [4000 * k for k in range(1, 11)])
             cases.append(dict(id='deep-nesting-4000x10', root='Metrics', file=path2, stream='', kind='deep-valid', compr=0,
                               generator='tools/deepstream.py: depths 4000*k, k=1..10'))
+            # boundary of the nesting guard: the counted depth of these records is d + c with 1 <= c <= 8 (the
+            # enclosing Metrics struct, attribute multimap and oneof levels), so by C03_record_nesting_guard the
+            # record of chain depth L-8 is accepted and the one of depth L refused (L = record_nesting_limit)
+            import re as _re
+            L = int(_re.search(r'record_nesting_limit : N := (\d+)\.', open(os.path.join(vlib.COQ, 'Stream/Nesting.v')).read()).group(1))
+            for nm, d, kind in (('under', L - 8, 'deep-boundary-ok'), ('over', L, 'deep-boundary-over')):
+                pb = os.path.join(vlib.BUILD, f'c03_deep_{nm}.bin')
+                syn.write(pb, [d])
+                cases.append(dict(id=f'deep-boundary-{nm}-{d}', root='Metrics', file=pb, stream='', kind=kind, compr=0, timeout_s=120,
+                                  generator=f'tools/deepstream.py: one record of chain depth {d}'))
         ncases = len(cases)
         for c in cases:
             stats['kind_' + c['kind']] += 1
@@ -319,6 +329,10 @@ def main():
                 bad = ('alloc', f'{r["alloc_mb"]:.0f} MiB allocated for a {len(c["stream"]) // 2}-byte input (bound {ALLOC_BOUND_MB} MiB)')
             elif c['kind'] == 'deep-valid' and (r.get('open') != 'ok' or r.get('err') != 'eof' or r.get('nrec') != 11):
                 bad = ('valid-rejected', f'valid stream nesting 40000 levels rejected: {r.get("open")} {r.get("nrec")} {r.get("err")}')
+            elif c['kind'] == 'deep-boundary-ok' and (r.get('open') != 'ok' or r.get('err') != 'eof' or r.get('nrec') != 2):
+                bad = ('valid-rejected', f'record nested 8 levels below the nesting limit rejected: {r.get("open")} {r.get("nrec")} {r.get("err")}')
+            elif c['kind'] == 'deep-boundary-over' and not (r.get('open') == 'ok' and r.get('nrec') == 1 and 'nesting limit' in str(r.get('err'))):
+                bad = ('nesting-accepted', f'record nested deeper than the nesting limit not refused: {r.get("open")} {r.get("nrec")} {r.get("err")}')
             elif c['kind'] == 'valid' and (r.get('open') != 'ok' or r.get('err') != 'eof'):
                 bad = ('valid-rejected', f'valid stream rejected: {r.get("open")} {r.get("err")}')
             if bad:
